@@ -38,6 +38,9 @@ def gen_case(rng, tier):
 
 def impl_fn(case):
     m = impl.build_uni(case)
+    q0 = lambda mm: (mm.observation_matrix(), [mm.get_modality(x[0]).confusion_matrix for x in case["mods"]])  # noqa: E731
+    impl.run_primes(m, case, q0, [impl.prime_with_flipped_kinds, impl.prime_modality_order])
+    impl.prime_inplace_modality_edit(m, case, q0)     # last: set_modality would replace the edited objects
     out = {"O": m.observation_matrix().tolist(), "obs_list": np.asarray(m.obs_list).reshape(len(m.obs_list), -1).tolist(),
            "conf": [m.get_modality(x[0]).confusion_matrix.tolist() for x in case["mods"]]}
     sl = m.graph.state_list
